@@ -45,7 +45,7 @@ REGISTRY = {
     "C11": eval_family([props.gen_C11, props.gen_C11_big, props.gen_bench_laws, props.gen_library_coincidence], [props.judge_laws, shellprops.judge_shell]),
     "C12": eval_family([props.gen_C12, props.gen_bench_patterns], [props.judge_pairs, props.judge_laws, shellprops.judge_shell]),
     "C13": eval_family([props.gen_C13], [props.judge_laws]),
-    "C15": eval_family([props.gen_C15], [props.judge_groups]),
+    "C15": eval_family([props.gen_C15, props.gen_C15_batches], [props.judge_groups]),
     "C18": eval_family([props.gen_C18], [props.judge_pairs]),
 }
 REGISTRY.update(front.REGISTRY)
@@ -95,6 +95,67 @@ def describe_case(case):
     return d
 
 
+FRONT_KINDS = ("TOK", "PARSE", "PREP", "DUPS", "CANON", "TREE")
+
+
+def tuplify(x):
+    return tuple(tuplify(y) for y in x) if isinstance(x, (list, tuple)) else x
+
+
+def load_cases(chk, path, prefix):
+    """cases of a replay / corpus file into `chk` (formula ASTs and meta data back to tuples)"""
+    rp = json.load(open(path))
+    ids = []
+    for c in rp.get("cases", []):
+        c = dict(c)
+        for k in ("pair", "group", "prep_group", "perm", "equal_pairs", "subset_triples"):
+            c.pop(k, None)
+        if "formulas" in c:
+            c["formulas"] = [f if isinstance(f, str) else tuplify(f) for f in c["formulas"]]
+        if "ctx" in c:
+            c["ctx"] = [tuple(x) for x in c["ctx"]]
+        if isinstance(c.get("meta"), dict):
+            c["meta"] = {k: tuplify(v) if k in ("t", "fs") else v for k, v in c["meta"].items()}
+        c["id"] = chk.new_id(prefix)
+        c["origin"] = os.path.basename(path)
+        chk.cases[c["id"]] = c
+        ids.append(c["id"])
+    return ids
+
+
+def judge_generic(chk):
+    """property-independent judgement of stand-alone cases (replays, corpus): specification and tie
+    for EVAL cases, implementation against model for front-end requests, OK/ERR for shell requests"""
+    props.judge_all(chk)
+    for j in (props.judge_pairs, props.judge_groups, props.judge_laws):
+        j(chk)
+    saved = dict(chk.cases)
+    try:
+        chk.cases = {k: v for k, v in saved.items() if v["kind"] in FRONT_KINDS}
+        front.judge_front(chk)
+    finally:
+        chk.cases = saved
+    shellprops.judge_shell(chk)
+    shellprops.judge_model_tie(chk)
+    shellprops.judge_slices(chk)
+
+
+def run_corpus(prop, args):
+    """inputs on which an earlier (seeded or repaired) version of the code violated the property:
+    they run first in every check (corpus/<prop>/*.json)"""
+    import glob
+    files = sorted(glob.glob(os.path.join(run.VERIF, "corpus", prop, "*.json")))
+    if not files:
+        return None
+    chk = core.Check(prop, args.tier, args.seed)
+    chk.workdir = chk.workdir + "-corpus"
+    for f in files:
+        load_cases(chk, f, "k")
+    chk.execute()
+    judge_generic(chk)
+    return chk
+
+
 def main():
     ap = argparse.ArgumentParser()
     ap.add_argument("prop")
@@ -113,6 +174,7 @@ def main():
     for old in glob.glob(os.path.join(run.VERIF, "replays", prop + "-*.json")):
         if not args.replay or os.path.abspath(old) != os.path.abspath(args.replay):
             os.remove(old)
+    run.SHARD_TIMEOUT[0] = int(os.environ.get("VERIF_SHARD_TIMEOUT", "900" if args.tier == "quick" else "3300"))
     chk = core.Check(prop, args.tier, args.seed)
     violations_out = []
     build_broken = []
@@ -139,20 +201,29 @@ def main():
     # ---- (c) correspondence
     if not build_broken:
         if args.replay:
-            rp = json.load(open(args.replay))
-            for c in rp.get("cases", []):
-                c = dict(c)
-                c["id"] = chk.new_id("r")
-                chk.cases[c["id"]] = c
+            load_cases(chk, args.replay, "r")
             chk.execute()
-            props.judge_all(chk)
-            for j in (props.judge_pairs, props.judge_groups, props.judge_laws):
-                j(chk)
-            front.judge_front(chk)
+            judge_generic(chk)
         else:
+            corpus = run_corpus(prop, args)
             REGISTRY[prop](chk)
+            if corpus is not None:
+                chk.violations = corpus.violations + chk.violations
+                chk.tie_broken = corpus.tie_broken + chk.tie_broken
+                chk.infra_errors += corpus.infra_errors
+                for cid, case in corpus.cases.items():
+                    case = dict(case, tag="corpus")
+                    chk.cases[cid] = case
+                chk.results.update(corpus.results)
+                chk.stats["evaluations"] += corpus.stats["evaluations"]
+                chk.notes.append("%d corpus cases from corpus/%s ran first" % (len(corpus.cases), prop))
 
     # ---- decide
+    for hid in run.HUNG:
+        if hid in chk.cases:
+            chk.violations.append({"id": hid, "why": "the implementation did not return within %d s on this input "
+                                   "(every property presupposes an answer)" % run.SHARD_TIMEOUT[0],
+                                   "case": chk.cases[hid], "answers": {}, "noshrink": True})
     if chk.infra_errors:
         print("[infra] " + " | ".join(chk.infra_errors)[:1500])
     seen = set()
@@ -164,7 +235,7 @@ def main():
         if len(violations_out) >= 5:
             break
         entry["kind"] = "violation"
-        small = chk.shrink(entry, lambda cid: chk.judge_eval(cid)) if entry["case"]["kind"] == "EVAL" and "pair" not in entry["case"] and "group" not in entry["case"] and "equal_pairs" not in entry["case"] and "subset_triples" not in entry["case"] else entry
+        small = chk.shrink(entry, lambda cid: chk.judge_eval(cid)) if not entry.get("noshrink") and entry["case"]["kind"] == "EVAL" and "pair" not in entry["case"] and "group" not in entry["case"] and "equal_pairs" not in entry["case"] and "subset_triples" not in entry["case"] else entry
         path = run.write_replay(prop, "fail-%d" % (len(violations_out) + 1), {
             "property": prop, "kind": "failing-input", "seed": args.seed, "tier": args.tier,
             "why": small["why"], "input": describe_case(small["case"]),
